@@ -35,7 +35,7 @@ SRC = ['inline', 'dict', 'struct', 'h5']
 
 def shards(tier):
     rows = [1, 3, 4] if tier == 'quick' else [1, 2, 3, 4, 5]
-    return [{'frame': f, 'rows': r, 'src': s} for f in list(FRAMES) + ['S2'] for r in rows for s in SRC]
+    return [{'frame': f, 'rows': r, 'src': s} for f in list(FRAMES) + ['S2', 'L2'] for r in rows for s in SRC]
 
 
 def bounds(tier):
@@ -47,6 +47,11 @@ def cases(shard, tier):
     wins = [(f, t) for f in range(R_) for t in range(f + 1, R_ + 1)] + [(f, None) for f in range(R_)]
     chunks = sorted({None, 1, 2, R_}, key=lambda x: (x is not None, x))
     maps = ['identity', 'renamed'] + (['swapped'] if shard['frame'] == 'D' else [])
+    if shard['frame'] == 'L2':
+        # two logical files with one frame each: the row window and the input chunk size apply to both alike
+        for (f, t), chunk, bo in itertools.product(wins, chunks, ['<', '>']):
+            yield dict(shard, frm=f, to=t, chunk=chunk, mapping='identity', perm='same', extra=False, bo=bo, sets='per-frame')
+        return
     if shard['frame'] == 'S2':
         # two frames with equally named channels, the second frame's channels in a CHANNEL set of their own: the data
         # sets are told apart by the documented NAME, NAME__1 rule across the whole logical file
@@ -85,24 +90,37 @@ def _pats(frame, rows):
 def make_spec_s2(c, reference):
     rows, frm, to = c['rows'], c['frm'], c['to']
     hi = rows if to is None else to
+    two_lf = c['frame'] == 'L2'
     ops = [S.op_lf(), S.op_origin()]
+    if two_lf:
+        ops += [{'op': 'lf', 'h': 'L1', 'kw': {'fh_id': 'SECOND-FILE', 'fh_sequence_number': 2}},
+                S.op_origin('O1', 'ORIGIN-2', lf='L1', set_name='TOOL-B')]
     data = []
     for k in (0, 1):
         sn = {'set_name': 'TOOL-B'} if (k == 1 and c.get('sets') == 'per-frame') else {}
+        if two_lf and k == 1:
+            sn['lf'] = 'L1'
         refs = []
         for j, (name, dt) in enumerate((('DEPTH', 'float64'), ('RPM', 'uint16'))):
             pat = [0x4000000000000000 + ((8 * k + r) << 46) for r in range(rows)] if dt == 'float64' else \
                 [1000 * (k + 1) + r for r in range(rows)]
             ds = name if k == 0 else f'{name}__1'
+            ckw = dict(sn)
+            if two_lf and k == 1:
+                # the second logical file's channels read data sets of their own (explicit names), so that one source
+                # can feed both files with different data
+                ds = f'{name}-OF-FILE-2'
+                ckw['dataset_name'] = ds
             hh = f'C{k}{j}'
             if reference:
-                ops.append(S.op_add('channel', hh, name, data=S.arr_spec(dt, [hi - frm], pat[frm:hi]), **sn))
+                ops.append(S.op_add('channel', hh, name, data=S.arr_spec(dt, [hi - frm], pat[frm:hi]), **ckw))
             else:
                 arr = S.arr_spec(dt, [rows], pat, bo=c.get('bo', '<'))
-                ops.append(S.op_add('channel', hh, name, **dict(sn, **({'data': arr} if c['src'] == 'inline' else {}))))
+                ops.append(S.op_add('channel', hh, name, **dict(ckw, **({'data': arr} if c['src'] == 'inline' else {}))))
                 data.append((ds, arr))
             refs.append({'$ref': hh})
-        ops.append(S.op_add('frame', f'F{k}', f'FRAME{k + 1}', channels=refs, index_type='BOREHOLE-DEPTH'))
+        ops.append(S.op_add('frame', f'F{k}', f'FRAME{k + 1}', channels=refs, index_type='BOREHOLE-DEPTH',
+                            **(sn if two_lf else {})))
     sp = {'sul': {'max_record_length': 8192}, 'ops': ops, 'write': {}}
     if reference:
         return sp
@@ -124,7 +142,7 @@ def make_spec_s2(c, reference):
 
 
 def make_spec(c, reference=False):
-    if c['frame'] == 'S2':
+    if c['frame'] in ('S2', 'L2'):
         return make_spec_s2(c, reference)
     rows = c['rows']
     frm, to = c['frm'], c['to']
